@@ -82,6 +82,12 @@ def spec_pairs(work):
         "executor": cubed.Spec(**base, executor=create_executor("threads")),
         "storage_options": cubed.Spec(**base, storage_options={"x": 1}),
         "zarr_compressor": cubed.Spec(**base, zarr_compressor=None),
+        # both sides carry an executor: same class with different options, different classes, options given by name
+        "executor_options": (cubed.Spec(**base, executor=create_executor("threads", dict(max_workers=1))),
+                             cubed.Spec(**base, executor=create_executor("threads", dict(max_workers=4)))),
+        "executor_class": (cubed.Spec(**base, executor=create_executor("threads")), cubed.Spec(**base, executor=create_executor("processes"))),
+        "executor_name_options": (cubed.Spec(**base, executor_name="threads", executor_options=dict(max_workers=1)),
+                                  cubed.Spec(**base, executor_name="threads", executor_options=dict(max_workers=2))),
     }
 
 
@@ -193,7 +199,10 @@ def run(chk):
     accepted_ok = []
     for name, fn in E.items():
         for field, B in others.items():
-            x = xp.asarray(data, chunks=(2, 2), spec=A)
+            A_ = A
+            if isinstance(B, tuple):
+                A_, B = B
+            x = xp.asarray(data, chunks=(2, 2), spec=A_)
             y = xp.asarray(data, chunks=(2, 2), spec=B)
             chk.case(key=("mix", name, field), nontrivial=True,
                      sample=dict(entry=name, differing_field=field) if (name, field) in (("add", "allowed_mem"), ("store", "work_dir")) else None)
